@@ -100,11 +100,18 @@ fn check(c: &Case, ctx: &Ctx) -> Outcome {
             // in-place variant works on a copy so that both directions start from the original
             let mut args: Vec<&str> = vec!["weed"];
             let target;
+            let spelled;
             if c.in_place {
                 target = format!("copy_{out}");
                 std::fs::write(dir.join(&target), &orig_bytes).unwrap();
                 args.push(&target);
                 args.push("weed.fa");
+                // a third of the in-place runs name the input once more as the output, spelled differently
+                if (k / 2 + samples.len() + reverse as usize) % 3 == 0 {
+                    spelled = format!("./{target}");
+                    args.push("-o");
+                    args.push(&spelled);
+                }
             } else {
                 target = out.to_string();
                 args.push("x.skf");
